@@ -102,6 +102,8 @@ func runC04(c *Ctx) {
 	c.rule("R04.5", "each frame is dispatched once; each call is handed to the dispatcher exactly once, on its own goroutine")
 	c.rule("R04.6", "single user-call site outside any loop, dominating the success reply")
 	c.rule("R04.7", "HTTP transport request is not replayable by net/http")
+	c.rule("R04.9", "every proxy field gets a call descriptor of its own (its retry / notify flags are not shared with other fields)")
+	c.descriptorPerField("R04.9")
 	c.rule("R04.8", "inbound frames are decoded into fresh memory")
 	if !c.need("R04.1", "FN_call", r.FnCall != nil) {
 		return
@@ -529,37 +531,7 @@ func (c *Ctx) retryGateRule(rule string) {
 	temp, haveTemp := c.tempCode()
 	tags := c.tagBoolFields()
 	// transport call inside the retry loop
-	var sends []*ssa.Call
-	allInstrs(call, func(in ssa.Instruction) {
-		ci, ok := in.(*ssa.Call)
-		if !ok {
-			return
-		}
-		f := staticCallee(ci)
-		if f == nil || !p.allFns[f] {
-			return
-		}
-		// the transport helper: builds a client request (stores to the mailbox field) or calls the doRequest field
-		uses := false
-		for _, u := range p.uses(r.FReady) {
-			if u.Fn == f && u.Kind == "store" {
-				uses = true
-			}
-		}
-		for _, u := range p.uses(r.FDoReq) {
-			if u.Fn == f && u.Kind == "call" {
-				uses = true
-			}
-		}
-		if uses {
-			sends = append(sends, ci)
-		}
-	})
-	for _, u := range p.uses(r.FDoReq) {
-		if u.Fn == call && u.Kind == "call" {
-			sends = append(sends, u.At.(*ssa.Call))
-		}
-	}
+	sends := c.clientSends()
 	if len(sends) == 0 {
 		c.und(rule, fname(call)+": transport send", p.pos(call.Pos()), "the call sending the request was not found")
 	}
@@ -627,4 +599,133 @@ func (c *Ctx) retryGateRule(rule string) {
 		}
 	}
 
+}
+
+// descriptorPerField: R04.9. The function installed for a proxy field is the call method bound to a
+// descriptor allocated for that field in the same activation of the builder (whose retry / notify
+// flags are then read from that field's own tags). A descriptor taken from a cache keyed by the wire
+// name makes a later, untagged field of a merged client share the retry flag of an earlier tagged one:
+// a plain call is then re-sent after a reconnect and runs twice.
+func (c *Ctx) descriptorPerField(rule string) {
+	p, r := c.P, c.R
+	if r.FnCall == nil {
+		c.und(rule, "client call function", "-", "not resolved")
+		return
+	}
+	n := 0
+	for _, fn := range p.Funcs {
+		if pkgOf(fn) != p.Root.Pkg {
+			continue
+		}
+		allInstrsRaw(fn, func(in ssa.Instruction) {
+			ci, ok := in.(*ssa.Call)
+			if !ok || calleeName(ci) != "reflect.MakeFunc" {
+				return
+			}
+			mc, ok := stripConv(ci.Common().Args[1]).(*ssa.MakeClosure)
+			if !ok || len(mc.Bindings) != 1 {
+				return
+			}
+			g, _ := mc.Fn.(*ssa.Function)
+			if g == nil || p.unbound(g) != r.FnCall {
+				return
+			}
+			n++
+			construct := fmt.Sprintf("%s: descriptor behind the installed proxy function", fname(fn))
+			fresh := c.allOrigins(mc.Bindings[0], func(a apath) bool {
+				al, ok := a.Root.(*ssa.Alloc)
+				return ok && len(a.Fields) == 0 && al.Heap && (al.Parent() == fn || p.inCone(fn, al))
+			})
+			c.check(fresh, rule, construct, c.ipos(ci), "allocated for this field", "the proxy function is bound to a descriptor that was not allocated for this field (taken from a cache or table): fields that share it share its retry and notify flags, so an untagged call can be re-sent after a reconnect, or a notification be sent as a call")
+		})
+	}
+	if n == 0 {
+		c.und(rule, "proxy function installation", "-", "no reflect.MakeFunc bound to the client call function found")
+	}
+}
+
+// clientSends: the calls in the client call function that hand the request to the transport.
+func (c *Ctx) clientSends() []*ssa.Call {
+	p, r := c.P, c.R
+	call := r.FnCall
+	var sends []*ssa.Call
+	if call == nil {
+		return nil
+	}
+	allInstrs(call, func(in ssa.Instruction) {
+		ci, ok := in.(*ssa.Call)
+		if !ok {
+			return
+		}
+		f := staticCallee(ci)
+		if f == nil || !p.allFns[f] {
+			return
+		}
+		// the transport helper: builds a client request (stores to the mailbox field) or calls the doRequest field
+		uses := false
+		for _, u := range p.uses(r.FReady) {
+			if u.Fn == f && u.Kind == "store" {
+				uses = true
+			}
+		}
+		for _, u := range p.uses(r.FDoReq) {
+			if u.Fn == f && u.Kind == "call" {
+				uses = true
+			}
+		}
+		if uses {
+			sends = append(sends, ci)
+		}
+	})
+	for _, u := range p.uses(r.FDoReq) {
+		if u.Fn == call && u.Kind == "call" {
+			sends = append(sends, u.At.(*ssa.Call))
+		}
+	}
+	return sends
+}
+
+// encodersRunOnce: R20.8 / R04.10. A registered parameter encoder may have side effects (the reader
+// encoder starts an upload that drains the caller's reader and mints an id for it). It runs once per
+// argument, before the request is first handed to the transport: from a transport send no encoder
+// invocation is reachable any more (a retry re-sends the request it built, it does not encode again —
+// a second upload would find the reader already drained, and the handler would see no bytes).
+func (c *Ctx) encodersRunOnce(rule string) {
+	p, r := c.P, c.R
+	if r.FnCall == nil {
+		c.und(rule, "client call function", "-", "not resolved")
+		return
+	}
+	sends := c.clientSends()
+	var encs []ssa.Instruction
+	for _, g := range c.region(r.FnCall) {
+		allInstrsRaw(g, func(in ssa.Instruction) {
+			ci, ok := in.(*ssa.Call)
+			if !ok || ci.Common().IsInvoke() || staticCallee(ci) != nil {
+				return
+			}
+			if nt, ok := ci.Common().Value.Type().(*types.Named); ok && nt.Obj().Pkg() == p.Root.Pkg && strings.Contains(nt.Obj().Name(), "ParamEncoder") {
+				encs = append(encs, in)
+			}
+		})
+	}
+	if len(sends) == 0 || len(encs) == 0 {
+		c.und(rule, fname(r.FnCall)+": parameter encoding", p.pos(r.FnCall.Pos()), "the transport send or the encoder invocation was not found")
+		return
+	}
+	for _, e := range encs {
+		construct := fmt.Sprintf("%s: invocation of a registered parameter encoder", fname(e.Parent()))
+		var after *ssa.Call
+		for _, s := range sends {
+			e := e
+			if reachFromUp(s, func(x ssa.Instruction) bool { return x == e }, nil) != nil {
+				after = s
+			}
+		}
+		if after != nil {
+			c.bad(rule, construct, c.ipos(e), "the encoder can run again after the request was handed to the transport at "+c.ipos(after)+" (re-encoding on a retry): an encoder with side effects — the reader encoder starts an upload that drains the caller's reader — then runs twice for one argument, and the retried request refers to an upload of an already drained reader, so the handler sees none of the caller's bytes")
+		} else {
+			c.ok(rule, construct, c.ipos(e), "only before the first transport send")
+		}
+	}
 }
